@@ -33,7 +33,20 @@ func runGrounds(w *World, o *Options) []*Obligation {
 	}
 	sort.Strings(pkgs)
 	for _, p := range pkgs {
-		out = append(out, runGroundPkg(w, o, p, byPkg[p])...)
+		var plain, race []*GroundOb
+		for _, g := range byPkg[p] {
+			if strings.HasPrefix(g.Name, "race-") {
+				race = append(race, g)
+			} else {
+				plain = append(plain, g)
+			}
+		}
+		if len(plain) > 0 {
+			out = append(out, runGroundPkg(w, o, p, plain, false)...)
+		}
+		if len(race) > 0 { // bounded concurrency audits run under the race detector
+			out = append(out, runGroundPkg(w, o, p, race, true)...)
+		}
 	}
 	return out
 }
@@ -45,7 +58,7 @@ func pkgDir(w *World, pkg string) string {
 	return w.repo
 }
 
-func runGroundPkg(w *World, o *Options, pkg string, gs []*GroundOb) []*Obligation {
+func runGroundPkg(w *World, o *Options, pkg string, gs []*GroundOb, race bool) []*Obligation {
 	start := time.Now()
 	var b strings.Builder
 	fmt.Fprintf(&b, "package %s\n\nimport (\n\t\"fmt\"\n\t\"reflect\"\n\t\"strings\"\n\t\"errors\"\n\t\"testing\"\n", pkg)
@@ -62,7 +75,7 @@ func runGroundPkg(w *World, o *Options, pkg string, gs []*GroundOb) []*Obligatio
 		fmt.Fprintf(&b, "\tfunc() {\n\t\tdefer func() { if r := recover(); r != nil { fmt.Printf(\"GROUND %d PANIC %%v\\n\", r) } }()\n\t\tif (%s) { fmt.Println(\"GROUND %d OK\") } else { fmt.Println(\"GROUND %d FAIL\") }\n\t}()\n", i, g.Args[0], i, i)
 	}
 	b.WriteString("}\n")
-	work := filepath.Join(o.verif, ".work", fmt.Sprintf("ground-%s-%s-%d", o.property, pkg, os.Getpid()))
+	work := filepath.Join(o.verif, ".work", fmt.Sprintf("ground-%s-%s-%v-%d", o.property, pkg, race, os.Getpid()))
 	os.MkdirAll(work, 0o755)
 	defer os.RemoveAll(work)
 	src := filepath.Join(work, "zz_verif_ground_test.go")
@@ -77,7 +90,11 @@ func runGroundPkg(w *World, o *Options, pkg string, gs []*GroundOb) []*Obligatio
 	}
 	ovj, _ := json.Marshal(map[string]map[string]string{"Replace": repl})
 	os.WriteFile(ov, ovj, 0o644)
-	cmd := exec.Command("go", "test", "-v", "-overlay", ov, "-vet=off", "-count=1", "-timeout", "300s", "-run", "^TestVerifGround$", ".")
+	args := []string{"test", "-v", "-overlay", ov, "-vet=off", "-count=1", "-timeout", "300s", "-run", "^TestVerifGround$", "."}
+	if race {
+		args = append([]string{"test", "-race"}, args[1:]...)
+	}
+	cmd := exec.Command("go", args...)
 	cmd.Dir = pkgDir(w, pkg)
 	cmd.Env = append(os.Environ(), goEnv...)
 	outb, _ := cmd.CombinedOutput()
@@ -93,6 +110,10 @@ func runGroundPkg(w *World, o *Options, pkg string, gs []*GroundOb) []*Obligatio
 			ob.Text = g.Args[0] + "   [bound: " + g.Bound + "]"
 		}
 		switch {
+		case race && strings.Contains(text, "WARNING: DATA RACE"):
+			ob.Status = "failed"
+			ob.Output = "the race detector reports a data race:\n" + truncate(text[strings.Index(text, "WARNING: DATA RACE"):], 3000)
+			ob.Extra = map[string]string{"confirmed": "true"}
 		case strings.Contains(text, fmt.Sprintf("GROUND %d OK\n", i)):
 			ob.Status = "discharged"
 		case strings.Contains(text, fmt.Sprintf("GROUND %d FAIL\n", i)):
